@@ -138,16 +138,40 @@ def run(prop, tier, seed, known):
                     x[1] = x[0] + 1.0
                 p = [440.0 * 2 ** (rng.choice([0, 0, 10, 25, -25, 40]) / 1200.0) for _ in range(k)]
                 return np.array(iv, dtype=float).reshape(-1, 2), np.array(p, dtype=float)
-            if rng.random() < 0.35:
+            mode_ = rng.random()
+            if mode_ < 0.3:
                 s0 = rng.randint(0, 4) * 0.25
                 ri, rp = dense(rng.randint(1, 3), s0)
                 ei, ep = dense(rng.randint(1, 3), s0)
+            elif mode_ < 0.45:
+                # deviations a few tenths of a millisecond away from the tolerance: the documented rounding is to 4 decimals, not 3
+                def near(k):
+                    iv = [[1.0 * j + rng.choice([0.0, 0.0502, 0.0504, 0.0496, 0.0498, 0.2004, 0.1996]), 0.0] for j in range(k)]
+                    for x in iv:
+                        x[1] = x[0] + 1.0 + rng.choice([0.0, 0.0502, 0.0496, 0.2004, 0.1996])
+                    return np.array(iv, dtype=float).reshape(-1, 2), np.array([440.0] * k)
+                kk_ = rng.randint(1, 3)
+                ri, rp = np.array([[1.0 * j, 1.0 * j + 1.0] for j in range(kk_)], dtype=float).reshape(-1, 2), np.array([440.0] * kk_)
+                ei, ep = near(kk_)
+            elif mode_ < 0.6:
+                # onsets on a 1/32 s lattice (not multiples of 1e-4): the distance is rounded, never the onsets themselves
+                def lat(k):
+                    iv = [[rng.randint(0, 16) / 32.0, 0.0] for _ in range(k)]
+                    for x in iv:
+                        x[1] = x[0] + 1.0
+                    return np.array(iv, dtype=float).reshape(-1, 2), np.array([440.0] * k)
+                ri, rp = lat(rng.randint(1, 3))
+                ei, ep = lat(rng.randint(1, 3))
             else:
                 ri, rp = notes(rng.randint(0, 3))
                 ei, ep = notes(rng.randint(0, 3))
             strict = rng.random() < 0.5
             ratio = rng.choice([None, 0.25, 0.5])
             ot, pt, omin = rng.choice([0.25, 0.05, 0.1]), rng.choice([50.0, 25.0]), rng.choice([0.25, 0.05])
+            if 0.3 <= mode_ < 0.45:
+                ot, omin = 0.05, rng.choice([0.05, 0.2])
+            elif 0.45 <= mode_ < 0.6:
+                ot = 1.0 / 16
             cmp = (lambda a, b: a < b) if strict else (lambda a, b: a <= b)
             rd = lambda x: round(x, 4)
             on = lambda i, j: cmp(rd(abs(ri[i, 0] - ei[j, 0])), ot)
@@ -166,12 +190,51 @@ def run(prop, tier, seed, known):
                            'match_notes(%s,%s,%s,%s, strict=%s, ratio=%s)' % (ri.tolist(), rp.tolist(), ei.tolist(), ep.tolist(), strict, ratio), fails)
             rv = np.array([float(rng.randint(1, 100)) for _ in range(nr)])
             ev = np.array([float(rng.randint(1, 100)) for _ in range(ne)])
+            if nr and rng.random() < 0.6:
+                # estimated velocities that follow the reference ones up to a few units: errors on both sides of the tolerance
+                ev = np.array([max(1.0, rv[j % nr] + rng.choice([-12, -8, -4, 0, 4, 8, 12])) for j in range(ne)])
             mv = [] if nr == 0 or ne == 0 else transcription_velocity.match_notes(ri, rp, rv, ei, ep, ev, onset_tolerance=ot, pitch_tolerance=pt, offset_ratio=ratio,
                                                     offset_min_tolerance=omin, strict=strict)
             if not set((int(a), int(b)) for a, b in mv) <= set((int(a), int(b)) for a, b in m):
                 fails.append('velocity matching is not a sub-matching of the note matching')
+            if nr and ne and len(m):
+                # the documented velocity criterion: reference velocities scaled to [0, 1] over ALL reference notes, estimated velocities
+                # mapped by the least-squares line through the matched pairs, pairs kept whose error is below the tolerance
+                rvn = (rv - rv.min()) / float(max(1, rv.max() - rv.min()))
+                mi_ = np.array([[int(a), int(b)] for a, b in m])
+                A_ = np.vstack([ev[mi_[:, 1]], np.ones(len(mi_))]).T
+                sl_, ic_ = np.linalg.lstsq(A_, rvn[mi_[:, 0]], rcond=None)[0]
+                err_ = np.abs(sl_ * ev[mi_[:, 1]] + ic_ - rvn[mi_[:, 0]])
+                if np.all(np.abs(err_ - 0.1) > 1e-6):
+                    want_v = set((int(a), int(b)) for (a, b), e_ in zip(mi_, err_) if e_ < 0.1)
+                    if set((int(a), int(b)) for a, b in mv) != want_v:
+                        fails.append('transcription_velocity.match_notes keeps %s, the documented velocity criterion keeps %s (ref velocities %s, est velocities %s, note matching %s)'
+                                     % (sorted((int(a), int(b)) for a, b in mv), sorted(want_v), rv.tolist(), ev.tolist(), mi_.tolist()))
             if len(fails) > 5:
                 break
+        # velocity criterion on well-separated notes where the loudest / softest reference note has no estimate
+        for _ in range(150 if tier == 'quick' else 2000):
+            kq = rng.randint(4, 6)
+            ri = np.array([[1.0 * j, 1.0 * j + 0.5] for j in range(kq)])
+            rp = np.full(kq, 440.0)
+            rv = np.array([float(rng.choice([20, 40, 60, 80, 100, 127])) for _ in range(kq)])
+            keep = [j for j in range(kq) if rng.random() < 0.7 and not (rng.random() < 0.7 and rv[j] in (rv.max(), rv.min()))]
+            if len(keep) < 2:
+                continue
+            ei, ep = ri[keep].copy(), rp[keep].copy()
+            ev = np.array([max(1.0, rv[j] + rng.choice([-14, -9, -5, 0, 5, 9, 14])) for j in keep])
+            n += 1
+            mv = transcription_velocity.match_notes(ri, rp, rv, ei, ep, ev)
+            rvn = (rv - rv.min()) / float(max(1, rv.max() - rv.min()))
+            A_ = np.vstack([ev, np.ones(len(ev))]).T
+            sl_, ic_ = np.linalg.lstsq(A_, rvn[keep], rcond=None)[0]
+            err_ = np.abs(sl_ * ev + ic_ - rvn[keep])
+            if np.all(np.abs(err_ - 0.1) > 1e-6):
+                want_v = set((keep[t], t) for t in range(len(keep)) if err_[t] < 0.1)
+                if set((int(a), int(b)) for a, b in mv) != want_v:
+                    fails.append('transcription_velocity.match_notes keeps %s, the documented velocity criterion keeps %s (ref velocities %s, estimates for notes %s with velocities %s)'
+                                 % (sorted((int(a), int(b)) for a, b in mv), sorted(want_v), rv.tolist(), keep, ev.tolist()))
+                    break
         bounded.append(dict(name='transcription.match_note_onsets / match_note_offsets / match_notes (+velocity sub-matching): valid maximum matchings of the documented predicate',
                             bound='%d random lattice note sets (<=3 x <=3 notes), strict in {T,F}, offset_ratio in {None, 1/4, 1/2}' % (1500 if tier == 'quick' else 20000),
                             cases=n, exhaustive=False, failures=fails[:3], wall_s=round(time.time() - t0, 2)))
